@@ -527,6 +527,31 @@ func runBuilder(c bCase) harness.Result {
 				return harness.Fail("strict extraction with a coil field at %d, outside the response window starting at %d (%d bytes), returned %d values and no error", outside, r.StartAddress, len(payload), len(fvS))
 			}
 		}
+		// an out-of-window field listed LAST, near and far beyond the window: what lenient extraction reports for it (error and the
+		// value next to it) is what it reports when that field is extracted alone - the fields before it do not show through
+		for _, far := range []int{outside, int(r.StartAddress) + 2000, int(r.StartAddress) + 2000 + 7 + len(r.Fields)} {
+			if far > 65535 || far < int(r.StartAddress)+8*len(payload) && far >= int(r.StartAddress) {
+				continue
+			}
+			ff := of
+			ff.Address = uint16(far)
+			last := r
+			last.Fields = append(append([]modbus.Field(nil), r.Fields...), ff)
+			alone := r
+			alone.Fields = []modbus.Field{ff}
+			fvL, _ := last.ExtractFields(resp, true)
+			fvA, _ := alone.ExtractFields(resp, true)
+			if len(fvL) != len(last.Fields) || len(fvA) != 1 {
+				return harness.Fail("lenient extraction returned %d values for %d fields and %d values for 1 field", len(fvL), len(last.Fields), len(fvA))
+			}
+			gl, ga := fvL[len(fvL)-1], fvA[0]
+			if gl.Error == nil || ga.Error == nil {
+				return harness.Fail("coil field at %d lies outside the response window starting at %d (%d bytes) but was extracted as %v / %v", far, r.StartAddress, len(payload), gl.Value, ga.Value)
+			}
+			if fmt.Sprintf("%T %v", gl.Value, gl.Value) != fmt.Sprintf("%T %v", ga.Value, ga.Value) || gl.Error.Error() != ga.Error.Error() {
+				return harness.Fail("lenient extraction: the coil field at %d (outside the response window starting at %d, %d bytes) is reported as (%v, %v) when it stands last behind %d other fields, but as (%v, %v) when it is extracted alone", far, r.StartAddress, len(payload), gl.Value, gl.Error, len(r.Fields), ga.Value, ga.Error)
+			}
+		}
 		fv, _ := r3.ExtractFields(resp, true)
 		if len(fv) != len(r3.Fields) {
 			return harness.Fail("lenient extraction with an out-of-window field first returned %d values for %d fields", len(fv), len(r3.Fields))
